@@ -219,7 +219,7 @@ fn exec<D: Doc>(p: &PrepDocLite<D>, rows: &[TagRow], w: &[Option<Vec<u64>>], tag
 }
 
 pub fn n_values(tier: Tier) -> u64 {
-    values_per_doc(tier, 40, 3000)
+    values_per_doc(tier, 40, 30000)
 }
 pub fn n_units(tier: Tier) -> u64 {
     n_docs() * n_values(tier)
